@@ -5,6 +5,7 @@ joined by spaces; `bad-op` for anything malformed.
 -/
 import CaddyModel.C01.Proto
 import CaddyModel.C03.Deps
+import CaddyModel.C01.StdApps
 
 namespace CaddyModel.C03
 open CaddyModel.Lifecycle CaddyModel.Lifecycle.Proto
@@ -56,6 +57,7 @@ def handleDeps (s : String) : String :=
 
 def handle (fs : List String) : String :=
   match fs with
+  | "E" :: _ => CaddyModel.C01.Std.handle fs   -- the standard apps on the load path (C01/StdApps.lean)
   | [g] => if g.startsWith "G=" then handleDeps g else
     match parseCase fs with
     | none => "bad-op"
@@ -69,6 +71,8 @@ def handle (fs : List String) : String :=
     F4 — the same config with a probe log writer loaded twice, then Stop: the writer is never
     closed, its pool count is 2 after the second load and stays 2 after Stop. -/
 def witnessLines : List String :=
-  ["L=0~0:1~0,1,0,-,-=1,0,0,-,0,0 L=0~0:1~0,1,0,-,-=1,0,0,-,0,0 S"]
+  ["L=0~0:1~0,1,0,-,-=1,0,0,-,0,0 L=0~0:1~0,1,0,-,-=1,0,0,-,0,0 S",
+   -- StdProps.lean cert_cache_function_of_running_full_fails: the tls app's certificate survives caddy.Stop
+   "E L00=0 S"]
 
 end CaddyModel.C03
